@@ -109,6 +109,8 @@ def main(chk):
               'get_task_lock', 'get_prop', 'set_prop', 'solver_method', 'get_status', 'get_task_status', 'set_log_level', 'dispatch', 'get_particle_array_names',
               'get_named_particle_array', 'get_particle_array_index', 'get_particle_array_from_procs', 'get_particle_array_combined', 'get_output_directory')
     cls = M.inlined_class(cls_raw, keep=set(PINNED) | set(n_ for n_ in VOCAB if not n_.startswith('_')))
+    # normal forms: a lock named through a local (`cond = self.plock; with cond:`) is that lock; `while True: if C: break` is `while not C`
+    cls = M.predicate_loops(M.self_aliases_inlined(cls))
     lm = L.LockModel(cls, lock_map_attrs=('queue_lock_map',))
     for need in ('rlock', 'res_lock', 'plock', 'qlock'):
         if need not in lm.locks:
@@ -144,6 +146,40 @@ def main(chk):
     eh = lm.entry_held(entries)
     chk.unit('locks held on entry', dict((k, sorted(v)) for k, v in eh.items() if v))
 
+    # ---- 0. the @synchronized decorator (whose lock the model above takes as held around the decorated function, and as released when it is left): the call of the wrapped
+    # function happens with the lock held and the lock is released however the function is left - a `with` block, or acquire() in front of a try whose finally releases
+    dec = M.find_func(tree, 'synchronized')
+    inner = [f for f in ast.walk(dec) if isinstance(f, ast.FunctionDef) and f is not dec and any(isinstance(c.func, ast.Name) and c.func.id == 'func' for c in M.calls(f))
+             and not any(isinstance(g_, ast.FunctionDef) and g_ is not f for g_ in ast.walk(f))]
+    if not inner:
+        raise AnalysisError('synchronized(): the wrapper that calls the decorated function was not found')
+    M.set_parents(dec)
+    for f in inner:
+        for c in [c for c in M.calls(f) if isinstance(c.func, ast.Name) and c.func.id == 'func']:
+            held = released = False
+            node = c
+            while node is not f:
+                par = node.parent
+                if isinstance(par, ast.With) and node in par.body and any(isinstance(it_.context_expr, ast.Name) and it_.context_expr.id == 'lock' for it_ in par.items):
+                    held = released = True
+                if isinstance(par, ast.Try) and node in par.body and any(isinstance(x, ast.Call) and U(x.func) == 'lock.release' for st in par.finalbody for x in ast.walk(st)):
+                    released = True
+                for fld in ('body', 'orelse', 'finalbody'):
+                    blk = getattr(par, fld, None)
+                    if isinstance(blk, list) and node in blk:
+                        # an unconditional blocking acquire in front (a non-blocking attempt followed by a blocking one under `if not ...` counts: both ways the lock is held)
+                        for st in blk[:blk.index(node)]:
+                            if isinstance(st, ast.Expr) and isinstance(st.value, ast.Call) and U(st.value.func) == 'lock.acquire' and not st.value.args and not st.value.keywords:
+                                held = True
+                            if isinstance(st, ast.If) and isinstance(st.test, ast.UnaryOp) and isinstance(st.test.op, ast.Not) and isinstance(st.test.operand, ast.Call) and \
+                                    U(st.test.operand.func) == 'lock.acquire' and not st.orelse and \
+                                    any(isinstance(x, ast.Expr) and isinstance(x.value, ast.Call) and U(x.value.func) == 'lock.acquire' and not x.value.args for x in st.body):
+                                held = True
+                node = par
+            chk.decide(held and released, 'command-lock-handoff', 'synchronized:%s:lock-held-and-always-released' % f.name, node=c, file=CT, func='synchronized.' + f.name,
+                       detail_bad='the decorated function is called %s: dispatch() raises for an unknown command / property, the interfaces catch that and go on - with the lock '
+                                  'still held every later dispatch() blocks for ever' % ('without the lock being held' if not held else 'with the lock held, but an exception in it skips lock.release()'),
+                       detail_ok='called under `with lock` / acquire - try - finally release')
     # ---- 1. lock order
     edges = lm.order_edges(entries)
     cyc = lm.cycles(edges)
